@@ -142,6 +142,28 @@ class Spec:
                         return 1.0
                     return abs(t[i] - a)
                 ops.append(Op("set", (i, a), mut(f_set)))
+        # from-the-end indices and open-ended / negative slice bounds (t[-1]=x, t[3:]=v, t[-3:]=v, t[3:-1]=v, t[:3]=v ...)
+        for a in ANG:
+            for i in range(-6, 0):
+                def f_setitem_neg(t, i=i, a=a):
+                    t[i] = a
+                    return max(abs(t[i] - a), abs(t[i + 6] - a))
+                ops.append(Op("setitem_neg", (i, a), mut(f_setitem_neg)))
+        slices = {"3:": slice(3, None), "-3:": slice(-3, None), ":3": slice(None, 3), "0:-3": slice(0, -3),
+                  "3:-1": slice(3, -1), "-3:-1": slice(-3, -1), "-6:-3": slice(-6, -3), "4:": slice(4, None), "1:4": slice(1, 4)}
+        for sname, sl in slices.items():
+            width = len(range(6)[sl])
+            for w in RV[1::4]:
+                vals = list(w)[:width] if width <= 3 else list(w) + [0.0] * (width - 3)
+                def f_slice(t, sl=sl, vals=vals):
+                    t[sl] = list(vals)
+                    return float(np.abs(t[sl].reshape(-1) - np.array(vals)).max())
+                ops.append(Op("setslice_list", (sname, vals), mut(f_slice)))
+                if width == 3:
+                    def f_slice3(t, sl=sl, vals=vals):
+                        t[sl] = np.array(vals, float).reshape(3, 1)
+                        return float(np.abs(t[sl].reshape(-1) - np.array(vals)).max())
+                    ops.append(Op("setslice_col", (sname, vals), mut(f_slice3)))
         for pv in ([1.0, 2.0, 3.0], [-0.5, 0.25, 10.0]):
             def f_pos_col(t, pv=pv):
                 t[0:3] = np.array(pv).reshape(3, 1)
